@@ -193,14 +193,14 @@ def run_config(contract, cfg, facets="VCSTRN", prime=None, tier="quick", max_pat
                 for nm, f in clauses.items():
                     fac = nm.split(".")[0]
                     if fac == "canary":
-                        if "K" in facets:
+                        if "K" in facets and cfg.get("mode") != "g0":
                             inner = nm.split(".", 1)[1]
-                            hy = g.sat_a(start) if inner.startswith("S.") else []
+                            hy = g.sat_a(start) if inner.startswith(("S.", "E.")) else []
                             obs.append((nm, hy, f, None))
                         continue
                     if fac not in facets:
                         continue
-                    if fac == "S":
+                    if fac in ("S", "E"):
                         if sat_a is None:
                             sat_a = g.sat_a(start)
                         obs.append((nm, sat_a, f, None))
@@ -254,6 +254,19 @@ def run_config(contract, cfg, facets="VCSTRN", prime=None, tier="quick", max_pat
             res["obligations"].append(dict(name="T.public_coefficients", path=psig, backend="structural", s=0.0,
                                            verdict="proved" if not secret else "refuted",
                                            **({} if not secret else {"detail": secret[:3]})))
+    # a canary (deliberately wrong clause) must be refuted on at least one path
+    can = {}
+    keep = []
+    for o in res["obligations"]:
+        if o.get("canary"):
+            can.setdefault(o["name"], []).append(o)
+        else:
+            keep.append(o)
+    for nm, lst in can.items():
+        ref = [o for o in lst if o["verdict"] == "refuted"]
+        keep.append(dict(name=nm, path="*", canary=True, backend="z3", s=round(sum(o["s"] for o in lst), 4),
+                         verdict="refuted" if ref else ("unknown" if any(o["verdict"] == "unknown" for o in lst) else "proved")))
+    res["obligations"] = keep
     res["sig"] = next(iter(res["sigs"].values()))[0] if res["sigs"] else None
     res["sigs"] = len(res["sigs"])
     res["stubs"] = sorted(res["stubs"])
